@@ -214,10 +214,14 @@ cdef class cyBQM_template(cyQMBase):
             raise ValueError("quadratic vectors should be equal length")
         cdef Py_ssize_t length = irow.shape[0]
 
+        # the indices are narrowed to index_type by the C++ code
+        cdef Py_ssize_t max_index = np.iinfo(self.index_dtype).max
         cdef Py_ssize_t i
         for i in range(length):
             if irow[i] < 0 or icol[i] < 0:
                 raise ValueError("variable indices must be non-negative")
+            if irow[i] >= max_index or icol[i] >= max_index:
+                raise ValueError("variable indices are too large")
 
         if length:
             if self.variables._is_range():
@@ -289,10 +293,14 @@ cdef class cyBQM_template(cyQMBase):
             raise ValueError("quadratic vectors should be equal length")
         cdef Py_ssize_t length = irow.shape[0]
 
+        # the indices are narrowed to index_type by the C++ code
+        cdef Py_ssize_t max_index = np.iinfo(bqm.index_dtype).max
         cdef Py_ssize_t i
         for i in range(length):
             if irow[i] < 0 or icol[i] < 0:
                 raise ValueError("variable indices must be non-negative")
+            if irow[i] >= max_index or icol[i] >= max_index:
+                raise ValueError("variable indices are too large")
 
         if length:
             bqm.cppbqm.add_quadratic_from_coo(&irow[0], &icol[0], &qdata[0], length)
